@@ -415,7 +415,10 @@ class EventDispatcher(object):
                     message.body, type(e).__name__, str(e)
                 )
             )
-            message.acknowledge(multiple=False)
+            # Acknowledge via the retained entry so that it is released too
+            # (and a message the state engine already acknowledged is not
+            # acknowledged a second time).
+            self.acknowledge(message.message_id)
 
     def acknowledge(self, id):
         """
